@@ -79,18 +79,25 @@ def sequence_at(project, pkg, version):
     return out
 
 
-def render_router(router):
+def render_router(router, migrate_only=False):
+    """migrate_only: the router has an opinion about allow_migrate() only;
+    reads and writes fall back to the default database."""
     lines = ['MAP = %r' % (router,), '', '',
              'class R(object):',
              '    def _db(self, app_label, model_name):',
              "        return MAP.get('%s.%s' % (app_label, model_name))",
              '',
+             '    def _rw(self, app_label, model_name):',
+             '        if %r:' % bool(migrate_only),
+             '            return None',
+             '        return self._db(app_label, model_name)',
+             '',
              '    def db_for_read(self, model, **hints):',
-             '        return self._db(model._meta.app_label,',
+             '        return self._rw(model._meta.app_label,',
              '                        model._meta.model_name)',
              '',
              '    def db_for_write(self, model, **hints):',
-             '        return self._db(model._meta.app_label,',
+             '        return self._rw(model._meta.app_label,',
              '                        model._meta.model_name)',
              '',
              '    def allow_relation(self, a, b, **hints):',
@@ -164,7 +171,8 @@ def render_version(project, version, sts=None, apps=None):
                     files['%s/evolutions/%s_%s.sql' % (
                         pkg, alias, evo['label'])] = text
     if project.get('router'):
-        files['router.py'] = render_router(project['router'])
+        files['router.py'] = render_router(
+            project['router'], project.get('router_migrate_only'))
     return files, installed
 
 
